@@ -108,6 +108,17 @@ type PkgSpec struct {
 	GenFiles  map[string][]byte
 	InlineExt []string
 	Opaque    []string
+	Callers   []*CallersRule
+}
+
+// CallersRule: a structural obligation over the call graph of /repo.
+type CallersRule struct {
+	Callee  string
+	Allowed []string
+	Label   string
+	Tags    []string
+	File    string
+	Line    int
 }
 
 var kwRe = regexp.MustCompile(`^(requires|ensures|assume|returns|observe|ghostset|modifies|cover|loop|results|nopanic|inline|unroll|atcall|handler|intmode|reveal)\b`)
@@ -226,6 +237,20 @@ func parseSpecFile(path string, ps *PkgSpec, trustedFile bool) error {
 			ps.Imports[alias] = p
 		case strings.HasPrefix(t, "use "):
 			ps.Uses = append(ps.Uses, strings.Fields(t)[1:]...)
+		case strings.HasPrefix(t, "callers "):
+			// callers KEY only F1, F2 #label @tags     every call of KEY in /repo sits in one of the listed functions
+			rest := strings.TrimPrefix(t, "callers ")
+			oi := strings.Index(rest, " only ")
+			if oi < 0 {
+				return fmt.Errorf("%s:%d: callers KEY only F1, F2", path, ln)
+			}
+			text, label, tags := splitLabelTags(" " + rest[oi+6:])
+			var allowed []string
+			for _, a := range strings.Split(text, ",") {
+				allowed = append(allowed, strings.TrimSpace(a))
+			}
+			ps.Callers = append(ps.Callers, &CallersRule{Callee: strings.TrimSpace(rest[:oi]), Allowed: allowed, Label: label, Tags: tags, File: path, Line: ln})
+			cur = nil
 		case strings.HasPrefix(t, "inline_external "):
 			ps.InlineExt = append(ps.InlineExt, strings.TrimSpace(strings.TrimPrefix(t, "inline_external ")))
 		case strings.HasPrefix(t, "stable "):
@@ -815,6 +840,7 @@ func (ps *PkgSpec) generate(trustedDir string) error {
 		ps.Stable = append(ps.Stable, tp.Stable...)
 		ps.InlineExt = append(ps.InlineExt, tp.InlineExt...)
 		ps.Opaque = append(ps.Opaque, tp.Opaque...)
+		ps.Callers = append(ps.Callers, tp.Callers...)
 	}
 	var mainBody strings.Builder
 	mainBody.WriteString(preludeGo)
